@@ -1,6 +1,6 @@
 (* C04 -- Format/version information and reported parameters tell the truth. *)
 From Coq Require Import NArith List Bool Arith Lia.
-From FQ Require Import Lib.Mat Model.Types Model.Hardcode Model.Qr Spec.Iso Spec.Oracles
+From FQ Require Import Proofs.PropLemmas Lib.Mat Model.Types Model.Hardcode Model.Qr Spec.Iso Spec.Oracles
   Proofs.Tables Proofs.Build Proofs.BuildMatrix Proofs.Readout Proofs.FormatInfo.
 Import ListNotations.
 
@@ -37,5 +37,5 @@ Proof. exact build_ok_fields. Qed.
 Print Assumptions C04_reported_fields.
 
 Theorem C04_default_level_is_Q : forall o, o_ecl o = None -> eff_level o = EQ.
-Proof. intros o H. unfold eff_level. now rewrite H. Qed.
+Proof. exact default_level_is_Q_c04. Qed.
 Print Assumptions C04_default_level_is_Q.
